@@ -15,7 +15,10 @@ def children(value, child_class):
 
 
 def dictionary(value, dictionary_class):
-    if value not in dictionary_class.__dict__.values():
+    allowed = [
+        v for k, v in dictionary_class.__dict__.items() if not k.startswith("_")
+    ]
+    if value not in allowed:
         raise ValueError(
             'Invalid value: "%s" not found in %s', value, dictionary_class.__name__
         )
